@@ -449,16 +449,21 @@ func (c *specCtx) selectField(base specVal, name string) specVal {
 	}
 	curT := base.typ
 	cur := base.term
+	space := "F"
+	if isStructLike(curT) {
+		space = "V" // selecting from a struct value (value object)
+	}
 	for k, idx := range path {
 		if pt, ok := curT.Underlying().(*types.Pointer); ok {
 			curT = pt.Elem()
+			space = "F"
 		}
 		st, ok := curT.Underlying().(*types.Struct)
 		if !ok {
 			fail("selector path through non-struct %s", curT)
 		}
 		f := st.Field(idx)
-		loc := vc.fieldLoc(cur, curT, idx)
+		loc := vc.fieldLocSp(cur, curT, idx, space)
 		if loc.kind == "sub" {
 			cur = loc.subRef
 		} else {
